@@ -214,6 +214,51 @@ pub fn c19(g: &mut G) {
             g.emit(format!("merge {} {} {} {} {} {}", mode, batch, fd, threads, seed, rs));
         }
     }
+    // many small batches over several workers: generations long enough for the order in
+    // which `Sorters::results` returns them to show structure (checked against the
+    // protocol model's `validOrder`)
+    for i in 0..(if g.thorough { 300 } else { 40 }) {
+        let nrows = 20 + g.rng.below(50) as usize;
+        let mode = modes[i % 4];
+        let rows: Kv = (0..nrows)
+            .map(|_| (g.rng.pick(&keyu).to_string().into_bytes(), 1 + g.rng.below(100)))
+            .collect();
+        let rs: String = rows.iter().map(|(k, v)| format!("{}:{}", hex(k), if mode == "set" { 0 } else { *v })).collect::<Vec<_>>().join(",");
+        let batch = 1 + g.rng.below(3);
+        let fd = 2 + g.rng.below(3);
+        let threads = 1 + g.rng.below(5);
+        let seed = 1 + g.rng.below(1000);
+        g.emit(format!("merge {} {} {} {} {} {}", mode, batch, fd, threads, seed, rs));
+    }
+    // the order predicate itself, on every permutation of up to 5 (thorough: 6) results
+    // and on malformed orders, for 1..4 workers
+    fn perms(n: usize) -> Vec<Vec<usize>> {
+        if n == 0 {
+            return vec![vec![]];
+        }
+        let mut out = vec![];
+        for p in perms(n - 1) {
+            for i in 0..=p.len() {
+                let mut q = p.clone();
+                q.insert(i, n - 1);
+                out.push(q);
+            }
+        }
+        out
+    }
+    for n in 0..=(if g.thorough { 6 } else { 5 }) {
+        for p in perms(n) {
+            let o = p.iter().map(|x| x.to_string()).collect::<Vec<_>>().join(",");
+            for threads in 1..=4 {
+                g.emit(format!("sched {} {} {}", threads, n, o));
+            }
+        }
+    }
+    for o in ["0,0", "0,2", "1", "0,1,1", "2,1,0,0", "0,1,2,3"] {
+        for threads in 1..=3 {
+            g.emit(format!("sched {} 3 {}", threads, o));
+        }
+    }
 }
 
 pub fn c20(g: &mut G) {
